@@ -272,6 +272,37 @@ def run_text_real(text):
         Mode.real = False
 
 
+def run_sequence_real(steps):
+    """a sequence of real queries on ONE store with bucket deletions / creations in between:
+    steps = [["q", text] | ["del", bucket] | ["create", bucket]]; returns the outcome kind of every query"""
+    import aw_query.query2 as q2
+
+    install_stubs()
+    Mode.real = True
+    try:
+        ds = make_store()
+        outs = []
+        for st in steps:
+            if st[0] == "q":
+                o = guarded(lambda: canon_real(q2.query("n", st[1], T0, T1, ds)))
+                outs.append(o[:2] if o[0] == "err" else ["value"])
+            elif st[0] == "del":
+                try:
+                    ds.delete_bucket(st[1])
+                    outs.append(["ok"])
+                except Exception as e:
+                    outs.append(["raised", type(e).__name__])
+            else:
+                try:
+                    ds.create_bucket(st[1], "t", "c", "host1")
+                    outs.append(["ok"])
+                except Exception as e:
+                    outs.append(["raised", type(e).__name__])
+        return outs
+    finally:
+        Mode.real = False
+
+
 def ref_eval_real(prog):
     """direct evaluation of the abstract syntax: the builtin bodies (the undecorated functions of
     aw_query.functions) applied to the values of the arguments, datastore / namespace passed to
